@@ -51,6 +51,9 @@ checks = {
  "C07": ("exploration", "bounded-exhaustive enumeration of out-of-subset and crash-prone constructs x statement positions, each declaration translated and printed separately by the real translator code through an overlay bridge under recover; plus enumeration of good/bad declaration patterns x file layouts through the real binary",
          "No enumerated declaration makes the translator panic; every error has a documented category and a position inside the offending declaration; k bad declarations give exit 1 and exactly k located errors, nothing written without -ignore-errors and exactly the good declarations with it.",
          "bridge calls declsOrError/CoqDecl like Decls and File.Write do; catalogue bounds", "2 C07"),
+ "C05": ("exploration", "bounded-exhaustive enumeration of token strings at every text position, of operator/context nestings, and of flag combinations, through the real goose; a Coq-rules lexer + precedence parser reads the output; nesting judged by interpreting the parsed text and comparing with Go",
+         "Every token string up to the length bound at 11 text positions leaves the sentence structure and all bodies unchanged (or the package is rejected); every enumerated nesting evaluates like Go when read with Coq's precedences; all 8 flag combinations give identical bodies.",
+         "Coq lexer rules and notation levels as modelled in mc/gl; nesting judged by value on boundary inputs", "2 C05"),
 }
 todo = {}
 man = {
